@@ -110,7 +110,7 @@ pub fn run(args: &Args) -> Out {
         let v: Value = serde_json::from_str(&std::fs::read_to_string(p).ok()?).ok()?;
         v["replay"]["case"].as_u64().map(|x| x as usize)
     });
-    let n = if leg == "histories" { args.n(480, 4800) } else { args.n(192, 1920) };
+    let n = if leg == "histories" { args.n(480, 4800) } else if leg == "provisioning" { args.n(48, 480) } else { args.n(192, 1920) };
     for idx in 0..n {
         if let Some(o) = only {
             if o != idx {
@@ -121,6 +121,8 @@ pub fn run(args: &Args) -> Out {
         }
         if leg == "histories" {
             history_case(args.seed, idx, &bin, &rt, &mut out);
+        } else if leg == "provisioning" {
+            provisioning_case(args.seed, idx, &bin, &rt, &mut out);
         } else {
             two_world_case(args.seed, idx, &bin, &rt, &mut out);
         }
@@ -431,6 +433,11 @@ fn history_case(seed: u64, idx: usize, bin: &str, rt: &std::sync::Arc<tokio::run
                     ("unknown", Some(key_for("nobody"))),
                     ("disabled-tenant", Some(key_for("gone"))),
                     ("malformed", Some("kyro_acme".to_string())),
+                    ("prefix-only", Some("kyro_acme_".to_string())),
+                    ("empty", Some(String::new())),
+                    ("truncated", Some({ let k = key_for("acme"); k[..k.len() - 1].to_string() })),
+                    ("valid-plus-trailing-bytes", Some(format!("{}x", key_for("acme")))),
+                    ("valid-key-other-case", Some(key_for("acme").to_uppercase())),
                     ("other-scheme", Some(format!("Basic {}", key_for("acme")))),
                 ];
                 let (name, key) = variants[rng.usize_below(variants.len())].clone();
@@ -610,5 +617,122 @@ fn two_world_case(seed: u64, idx: usize, bin: &str, rt: &std::sync::Arc<tokio::r
     }
     if idx % 5 == 0 {
         out.sample(json!({"leg":"two-world","case":desc}));
+    }
+}
+
+
+/// Tenant provisioning across restarts: tenants with one or two enabled keys (rotation overlap), new
+/// tenants added to the key file between restarts, on the same data directory. Every tenant's census
+/// must equal its own model after every restart: a newly provisioned tenant starts empty and its
+/// writes / deletes never touch another tenant's documents; both keys of a tenant see the same data.
+fn provisioning_case(seed: u64, idx: usize, bin: &str, rt: &std::sync::Arc<tokio::runtime::Runtime>, out: &mut Out) {
+    let mut rng = Rng::derive(seed, idx as u64, 0xC10_7);
+    let dim = 4;
+    let all = ["t_a", "t_b", "t_c", "t_d", "t_e"];
+    let mut active = rng.range(1, 3) as usize;
+    let two_keys: Vec<String> = all.iter().filter(|_| rng.chance(0.4)).map(|s| s.to_string()).collect();
+    let mk_cfg = |active: usize, rng: &mut Rng| SrvCfg {
+        dim,
+        tenants: all[..active].iter().map(|id| TenantSpec { id: id.to_string(), max_vectors: 10_000, max_qps: 0, enabled: true, admin: false }).collect(),
+        fsync: "data_only",
+        snapshot_interval: *rng.pick(&[3u64, 1000]),
+        second_key_for: two_keys.clone(),
+        ..Default::default()
+    };
+    let mut srv = Srv::new(mk_cfg(active, &mut rng), bin, rt.clone());
+    if let Err(e) = srv.start() {
+        out.inconclusive(format!("server start failed: {}", e));
+        return;
+    }
+    let desc = json!({"check":"C10","leg":"provisioning","seed":seed,"case":idx,"two_keys":two_keys});
+    let mut models: BTreeMap<String, BTreeMap<u64, (Vec<f32>, String)>> = BTreeMap::new();
+    let mut history: Vec<Value> = Vec::new();
+    let ids: Vec<u64> = (1..=4).collect();
+    let rounds = rng.range(2, 4);
+    for round in 0..rounds {
+        // writes by every active tenant (colliding local ids), through either of its keys
+        for t in &all[..active] {
+            let key = if two_keys.contains(&t.to_string()) && rng.chance(0.5) { second_key_for(t) } else { key_for(t) };
+            let Ok(mut cl) = srv.client(Some(key)) else { continue };
+            for _ in 0..rng.range(1, 4) {
+                let id = *rng.pick(&ids);
+                if rng.chance(0.75) {
+                    let v = gen_unit_vec(&mut rng, dim);
+                    let tag = format!("{}-{}-{}", t, round, id);
+                    let mut md = HashMap::new();
+                    md.insert("tag".to_string(), tag.clone());
+                    history.push(json!({"round":round,"t":t,"op":"insert","id":id}));
+                    if matches!(cl.insert(id, v.clone(), md, ""), Ok(r) if r.success) {
+                        models.entry(t.to_string()).or_default().insert(id, (v, tag));
+                    }
+                } else {
+                    history.push(json!({"round":round,"t":t,"op":"delete","id":id}));
+                    if cl.delete(id, "").is_ok() {
+                        models.entry(t.to_string()).or_default().remove(&id);
+                    }
+                }
+            }
+        }
+        // census of every active tenant through every one of its keys
+        for t in &all[..active] {
+            let mut keys = vec![key_for(t)];
+            if two_keys.contains(&t.to_string()) {
+                keys.push(second_key_for(t));
+            }
+            for (ki, key) in keys.into_iter().enumerate() {
+                let Ok(mut cl) = srv.client(Some(key)) else { continue };
+                for id in &ids {
+                    let exp = models.get(*t).and_then(|m| m.get(id));
+                    match cl.query(*id, true, "") {
+                        Ok(q) => {
+                            let ok = match exp {
+                                None => !q.found,
+                                Some((v, tag)) => q.found && q.metadata.get("tag") == Some(tag) && !q.embedding.iter().zip(v.iter()).any(|(a, b)| (a - b).abs() > 1e-5),
+                            };
+                            if !ok {
+                                out.violation(
+                                    "provisioning-census-mismatch",
+                                    format!("round {}: tenant {} (key #{}) Query({}) = found {} tag {:?}; its own model says {:?}; tenants active {:?}, two keys {:?}", round, t, ki, id, q.found, q.metadata.get("tag"), exp.map(|e| &e.1), &all[..active], two_keys),
+                                    json!({"desc":desc,"history":history}),
+                                );
+                                srv.kill9();
+                                return;
+                            }
+                        }
+                        Err(e) => {
+                            out.inconclusive(format!("census query failed: {}", e));
+                            srv.kill9();
+                            return;
+                        }
+                    }
+                }
+            }
+        }
+        // provision 0-2 new tenants and restart (graceful or SIGKILL) on the same data directory
+        if round + 1 < rounds {
+            active = (active + rng.range(0, 2) as usize).min(all.len());
+            if rng.chance(0.5) {
+                let _ = srv.term();
+            } else {
+                srv.kill9();
+            }
+            srv.cfg = mk_cfg(active, &mut rng);
+            history.push(json!({"round":round,"op":"restart","active":active}));
+            if let Err(e) = srv.start() {
+                if e.contains("exited during start-up") {
+                    out.violation("provisioning-restart-failed", format!("server does not start after adding tenants: {}", e), json!({"desc":desc,"history":history}));
+                } else {
+                    out.inconclusive(format!("restart watchdog: {}", e));
+                }
+                return;
+            }
+        }
+    }
+    srv.kill9();
+    out.eval();
+    out.distinct(&(idx, history.len()));
+    out.count("provisioning_rounds", rounds);
+    if idx % 8 == 0 {
+        out.sample(json!({"case":desc,"rounds":rounds,"tenants_at_end":active}));
     }
 }
